@@ -204,7 +204,11 @@ func (ck *Checker) collect() {
 		relevant := hasProp(fc.Props, ck.prop)
 		if !relevant {
 			// a clause tagged with the property?
-			for _, cl := range append(append([]*Clause{}, fc.Requires...), fc.Ensures...) {
+			all := append(append(append([]*Clause{}, fc.Requires...), fc.Ensures...), fc.Asserts...)
+			for _, cls := range fc.LoopInv {
+				all = append(all, cls...)
+			}
+			for _, cl := range all {
 				if hasProp(cl.Props, ck.prop) {
 					relevant = true
 				}
